@@ -40,6 +40,37 @@ def error_blocks(b, names=ERR_NAMES):
     return out
 
 
+def record_ctor_family(F):
+    """the constructor of the per-dimension-set record (returns a struct of this crate with the record's two text buffers), its closures,
+    and the private helpers only it calls (with their closures): where the record's constant prefix is put together"""
+    c_ = getattr(F, "_ctor_family", None)
+    if c_ is None:
+        fam = {}
+        for b in F.all_bodies(CR):
+            rty_ = F.adts.get((b.locals[0].get("head") or {}).get("adt") or "") if b.locals else None
+            if rty_ and rty_["crate"] == CR and not (b.impl or {}).get("trait") and b.kind != "Closure" and \
+                    sum(1 for v_ in rty_["variants"] for f_ in v_["fields"] if "PrefixedStringBuf" in f_["ty"]) >= 2:
+                fam[b.def_] = b
+        work = list(fam.values())
+        while work:
+            b = work.pop()
+            for cb in F.closures_of(b):
+                if cb.def_ not in fam:
+                    fam[cb.def_] = cb
+                    work.append(cb)
+            for c in b.calls():
+                for hb in local_callee_bodies(F, c):
+                    if hb.crate != CR or hb.def_ in fam or hb.kind == "Closure":
+                        continue
+                    callers = F.callers_of(hb.path, crates=[CR])
+                    if callers and all(x.body.def_ in fam for x in callers) and not (hb.impl or {}).get("trait"):
+                        fam[hb.def_] = hb
+                        work.append(hb)
+        c_ = set(fam)
+        F._ctor_family = c_
+    return c_
+
+
 def switches(F):
     """the validation switches by shape: the fields of the crate's all-bool struct (three or more flags) that a Format implementor keeps
     in one of its fields -> (flag names, {holder adt: name of the field holding the switch struct})"""
@@ -120,9 +151,7 @@ def run(ctx):
         key = fnkey(b) + "#member-emission"
         # the constructor of the per-dimension-set record (a private type: its name and module are not part of the key): the function
         # that returns a struct of this crate holding the record's two text buffers
-        rty_ = F.adts.get((b.locals[0].get("head") or {}).get("adt") or "") if b.locals else None
-        if rty_ and rty_["crate"] == CR and not (b.impl or {}).get("trait") and \
-                sum(1 for v_ in rty_["variants"] for f_ in v_["fields"] if "PrefixedStringBuf" in f_["ty"]) >= 2:
+        if b.def_ in record_ctor_family(F):
             key = CR + "::emf::<per-dimension-set record>::constructor#member-emission"
         ctx.check(ok, "R08.2", key, loc(b, js.bb),
                   "a top-level JSON member is emitted under a name that is never registered in the uniqueness map (%s): a second value "
